@@ -349,6 +349,7 @@ class GaussianMerge(Compiler):
 
         merged_gaussian_ops = self.remove_invalid_operations(op, merged_gaussian_ops)
         merged_gaussian_ops = self.remove_non_convex_operations(op, merged_gaussian_ops)
+        merged_gaussian_ops = self.remove_disconnected_operations(op, merged_gaussian_ops)
 
         if self.is_redundant_merge(op, merged_gaussian_ops):
             return []
@@ -380,6 +381,17 @@ class GaussianMerge(Compiler):
                 if changed:
                     break
         return group[1:]
+
+    def remove_disconnected_operations(self, op, merged_gaussian_ops):
+        """
+        An operation that was added because it shares a successor with op has nothing in common
+        with op once that successor has been dropped from the group. Merging it would at best do
+        nothing, and for displacements on different qumodes reproduces the same gates forever.
+        Only the members linked to op through other members are kept.
+        """
+        group = self.DAG.subgraph([op] + merged_gaussian_ops).to_undirected()
+        linked = nx.node_connected_component(group, op)
+        return [member for member in merged_gaussian_ops if member in linked]
 
     def is_redundant_merge(self, op, merged_gaussian_ops):
         """
